@@ -540,6 +540,11 @@ func (e *Engine) mutexRLock(p *value) {
 	if m.writer == cur {
 		e.event("self-deadlock", "goroutine read-locks a mutex it holds for writing")
 	}
+	if m.readers[cur] > 0 {
+		// sync.RWMutex: "recursive read locking is prohibited" - the second RLock
+		// blocks for ever once a writer has queued up behind the first
+		e.event("self-deadlock", "goroutine read-locks a mutex it already holds for reading")
+	}
 	e.block("RLock", func() bool { return m.writer == nil })
 	m.readers[cur]++
 }
